@@ -25,7 +25,7 @@ package procbuilder
 //@ exclude R2vri.Simulate: emulator opcode: sends a command on the VM's own CmdChan (channel operations are outside the verifiable subset)
 //@ interface Opcode method Simulate(vm *VM, instr string) error
 //@   requires vm != nil && vm.Mach != nil
-//@   assigns vm.*, vm.Registers[*], vm.Memory[*], vm.Inputs[*], vm.Outputs[*], vm.InputsValid[*], vm.OutputsValid[*],
+//@   assigns vm.Pc, vm.LastPc, vm.DelayCounter, vm.Registers[*], vm.Memory[*], vm.Inputs[*], vm.Outputs[*], vm.InputsValid[*], vm.OutputsValid[*],
 //@           vm.InputsRecv[*], vm.OutputsRecv[*], vm.Extra_states[*], vm.DeferredInstructions[*]
 //@   reads vm.*, vm.Registers[*], vm.Memory[*], vm.Inputs[*], vm.Outputs[*], vm.InputsValid[*], vm.OutputsValid[*],
 //@         vm.InputsRecv[*], vm.OutputsRecv[*], vm.Extra_states[*], vm.DeferredInstructions[*],
@@ -70,3 +70,68 @@ package procbuilder
 //@ func fpDiv(a int64, b int64, regSize int, fracBits int) int64
 //@   trusted
 //@   pure
+
+// Deferred instructions are closures stored in the VM; each acts only on the VM it is called with.
+//@ functype DeferredInstruction(vm *VM) bool
+//@   requires vm != nil && vm.Mach != nil
+//@   assigns vm.Pc, vm.LastPc, vm.DelayCounter, vm.Registers[*], vm.Memory[*], vm.Inputs[*], vm.Outputs[*], vm.InputsValid[*], vm.OutputsValid[*],
+//@           vm.InputsRecv[*], vm.OutputsRecv[*], vm.Extra_states[*]
+//@   reads vm.*, vm.Registers[*], vm.Memory[*], vm.Inputs[*], vm.Outputs[*], vm.InputsValid[*], vm.OutputsValid[*],
+//@         vm.InputsRecv[*], vm.OutputsRecv[*], vm.Extra_states[*], vm.Mach.*
+//@   frameonly
+
+//@ func (vm *VM) waitRecvI2rw(inp int) bool
+//@   requires vm != nil
+//@   assigns vm.InputsRecv[*]
+//@   reads vm.InputsValid, vm.InputsValid[*], vm.InputsRecv
+//@   frameonly
+
+//@ func (vm *VM) waitRecvSicv3(inp int) bool
+//@   requires vm != nil
+//@   assigns vm.InputsRecv[*]
+//@   reads vm.InputsValid, vm.InputsValid[*], vm.InputsRecv
+//@   frameonly
+
+//@ func (vm *VM) ExecuteDeferredInstructions() error
+//@   requires vm != nil ==> vm.Mach != nil
+//@   ensures newmap: vm != nil ==> fresh(vm.DeferredInstructions) || vm.DeferredInstructions == old(vm.DeferredInstructions)
+//@   assigns vm.DeferredInstructions, vm.Pc, vm.LastPc, vm.DelayCounter, vm.Registers[*], vm.Memory[*], vm.Inputs[*], vm.Outputs[*], vm.InputsValid[*], vm.OutputsValid[*],
+//@           vm.InputsRecv[*], vm.OutputsRecv[*], vm.Extra_states[*]
+//@   reads vm.*, vm.Registers[*], vm.Memory[*], vm.Inputs[*], vm.Outputs[*], vm.InputsValid[*], vm.OutputsValid[*],
+//@         vm.InputsRecv[*], vm.OutputsRecv[*], vm.Extra_states[*], vm.DeferredInstructions[*], vm.Mach.*
+//@   loop 1: modifies vm.Pc, vm.LastPc, vm.DelayCounter, vm.Registers[*], vm.Memory[*], vm.Inputs[*], vm.Outputs[*], vm.InputsValid[*], vm.OutputsValid[*],
+//@           vm.InputsRecv[*], vm.OutputsRecv[*], vm.Extra_states[*], notCompleted[*]
+//@   frameonly
+
+//@ interface Opcode method Disassembler(arch *Arch, instr string) (string, error)
+//@   requires arch != nil
+//@   reads arch.R, arch.Rsize, arch.N, arch.M, arch.L, arch.O, arch.Modes, arch.Modes[*], arch.Op, arch.Shared_constraints, arch.Tag, arch.WordSize
+//@   pure
+//@   frameonly
+
+//@ func (vm *VM) DumpIO() string
+//@   reads vm.Inputs, vm.Inputs[*], vm.Outputs, vm.Outputs[*], vm.InputsValid, vm.InputsValid[*], vm.OutputsValid, vm.OutputsValid[*],
+//@         vm.InputsRecv, vm.InputsRecv[*], vm.OutputsRecv, vm.OutputsRecv[*], vm.Mach, vm.Mach.*
+//@   trusted
+//@   pure
+//@ func (vm *VM) DumpRegisters() string
+//@   reads vm.Registers, vm.Registers[*], vm.Mach, vm.Mach.*
+//@   trusted
+//@   pure
+
+// One processor tick: only this VM changes. Scope: no per-opcode delay model configured (with one, GetValue draws
+// from the process-wide math/rand source by design, which is outside the VM).
+//@ func (vm *VM) Step(psc *SimConfig) (string, error)
+//@   requires vm != nil && vm.Mach != nil && vm.SimDelayArray == nil
+//@   assigns vm.DeferredInstructions, vm.Pc, vm.LastPc, vm.DelayCounter, vm.Registers[*], vm.Memory[*], vm.Inputs[*], vm.Outputs[*], vm.InputsValid[*], vm.OutputsValid[*],
+//@           vm.InputsRecv[*], vm.OutputsRecv[*], vm.Extra_states[*], vm.DeferredInstructions[*]
+//@   reads vm.*, vm.Registers[*], vm.Memory[*], vm.Inputs[*], vm.Outputs[*], vm.InputsValid[*], vm.OutputsValid[*],
+//@         vm.InputsRecv[*], vm.OutputsRecv[*], vm.Extra_states[*], vm.DeferredInstructions[*],
+//@         vm.Mach.*, vm.Mach.Op[*], vm.Mach.Modes[*], vm.Mach.Slocs[*], vm.Mach.Vars[*], psc.*
+//@   frameonly
+
+// A forked VM shares no mutable container with its source: the maps and the delay array are freshly allocated.
+//@ func (vm *VM) CopyState(vmSource *VM) error
+//@   ensures fresh: result == nil ==> fresh(vm.DeferredInstructions) && fresh(vm.Extra_states) && (len(vm.SimDelayArray) == 0 || fresh(vm.SimDelayArray))
+//@   assigns vm.*, vm.Registers[*], vm.Memory[*], vm.Inputs[*], vm.Outputs[*], vm.InputsValid[*], vm.OutputsValid[*], vm.InputsRecv[*], vm.OutputsRecv[*]
+//@   frameonly
